@@ -3,6 +3,7 @@ From Coq Require Import String Ascii.
 From Coq Require Import List NArith ZArith QArith Bool Arith Lia Sorted.
 From Outrank Require Import Pipeline.RankGraph.
 Import ListNotations.
+Close Scope Q_scope.
 
 (* ---- string order ------------------------------------------------------------------------------ *)
 
@@ -383,11 +384,11 @@ Proof.
     + reflexivity.
     + rewrite IH. unfold peqb at 2. simpl.
       rewrite (N.eqb_sym u x), (N.eqb_sym v y).
-      destruct (N.eqb x u && N.eqb y v); simpl; lia.
+      destruct (N.eqb x u && N.eqb y v); cbn [Datatypes.length]; lia.
 Qed.
 
 (* rationals with a common positive denominator compare by numerator *)
-Lemma frac_le : forall c d n, (c <= d)%N -> frac c n <= frac d n.
+Lemma frac_le : forall c d n, (c <= d)%N -> (frac c n <= frac d n)%Q.
 Proof.
   intros c d n H. unfold frac, Qle. simpl. apply Z.mul_le_mono_nonneg_r; lia.
 Qed.
@@ -397,7 +398,7 @@ Proof.
   intros n H. rewrite <- positive_nat_Z. rewrite Nat2Pos.id by exact H. reflexivity.
 Qed.
 
-Lemma frac_le_1 : forall c n, n <> 0 -> (c <= N.of_nat n)%N -> frac c n <= 1.
+Lemma frac_le_1 : forall c n, n <> 0 -> (c <= N.of_nat n)%N -> (frac c n <= 1)%Q.
 Proof.
   intros c n Hn H. unfold frac, Qle. simpl. rewrite Zpos_of_nat by exact Hn. lia.
 Qed.
@@ -407,8 +408,8 @@ Proof. intros a b H. rewrite combine_length. lia. Qed.
 
 Theorem maxcov_exact : forall a b : list N, length a = length b -> a <> [] ->
   (exists u v, In (u, v) (combine a b) /\ maxcov a b = frac (joint a b u v) (length a)) /\
-  (forall u v, frac (joint a b u v) (length a) <= maxcov a b) /\
-  frac 1 (length a) <= maxcov a b /\ maxcov a b <= 1.
+  (forall u v, (frac (joint a b u v) (length a) <= maxcov a b)%Q) /\
+  (frac 1 (length a) <= maxcov a b)%Q /\ (maxcov a b <= 1)%Q.
 Proof.
   intros a b Hlen Hne.
   assert (Hc : combine a b <> []).
@@ -420,7 +421,7 @@ Proof.
   - intros u v. apply frac_le. rewrite joint_cnt. apply (maxfreq_ge peqb peqb_spec).
   - apply frac_le. apply (maxfreq_pos peqb peqb_spec). exact Hc.
   - apply frac_le_1; auto.
-    rewrite <- (combine_length_eq a b Hlen). apply (maxfreq_le_length peqb peqb_spec).
+    rewrite <- (combine_length_eq a b Hlen). apply (maxfreq_le_length peqb).
 Qed.
 
 (* the bucketed version can only over-count *)
@@ -436,7 +437,7 @@ Proof.
   lia.
 Qed.
 
-Theorem maxcov_old_ge : forall a b, maxcov a b <= maxcov_old a b.
+Theorem maxcov_old_ge : forall a b, (maxcov a b <= maxcov_old a b)%Q.
 Proof.
   intros a b. unfold maxcov, maxcov_old. apply frac_le.
   destruct (combine a b) as [|p ps] eqn:Ec.
@@ -447,7 +448,7 @@ Proof.
 Qed.
 
 Theorem maxcov_prefix_refuted :
-  exists a b, length a = length b /\ maxcov_old a b == 1 /\ maxcov a b == 1 # 2 /\ ~ maxcov_old a b == maxcov a b.
+  exists a b, length a = length b /\ (maxcov_old a b == 1)%Q /\ (maxcov a b == 1 # 2)%Q /\ ~ (maxcov_old a b == maxcov a b)%Q.
 Proof.
   exists [0; 17]%N, [0; 12831]%N. vm_compute. repeat split; intros H; discriminate H.
 Qed.
